@@ -4,6 +4,10 @@ import N0Verif.Model.Files
 driver operations of the file model
 
 * `files.enc <codec> <str>` / `files.dec <codec> <bytes>` — the four concrete codecs;
+* `files.lineok <eol bytes> <line bytes>` — the side condition `lineOk` of the binary `load_lines` theorems
+  (Python: `(line + eol).find(eol) == len(line)`), answer `ok 1` / `ok 0`;
+* `files.split <eol bytes> <data>` — `data.split(eol)` without the empty last piece (what binary `load_lines`
+  yields), answer `ok <k> <piece>×k`;
 * `files.hist <init> <op>…` — a history of operations on one path of an otherwise empty file
   system.  `<init>` is `-` (no file) or the initial bytes.  Operations:
     `S <codec> <mode> <eol> <tag> <payload>`  save_file   (payload: `s <str>`, `b <bytes>`, `o <str>`,
@@ -130,6 +134,18 @@ def handle (toks : List String) : Option String :=
       match c.decode s with
       | some b => some ("ok " ++ encStr b)
       | none => some "err ValueError"
+    | _, _ => some "bad-op"
+  | ["files.lineok", e, l] =>
+    match decStr e, decStr l with
+    | some e, some l => some (if lineOk e l then "ok 1" else "ok 0")
+    | _, _ => some "bad-op"
+  | ["files.split", e, d] =>
+    match decStr e, decStr d with
+    | some e, some d =>
+      if e.isEmpty then some "err ValueError"
+      else
+        let ps := dropLastEmpty (Py.split e d)
+        some ("ok " ++ toString ps.length ++ ps.foldl (fun acc v => acc ++ " " ++ encStr v) "")
     | _, _ => some "bad-op"
   | "files.hist" :: init :: rest =>
     let fs0 : Option FS :=
